@@ -18,7 +18,8 @@ LEVEL_NOTE = ("Partial: runtime crashes (stack overflow by deep native recursion
 TECHNIQUE = "Lean 4 proof (termination/totality, error-kind closure) + crash/hang oracle on the real interpreter over mutated and truncated inputs"
 RULE = ("random token sequences over the vocabulary; token-level edits (delete, duplicate, swap, replace) of generated and example "
         "programs; truncation of well-formed programs at every character offset; Unicode/byte noise; a directed corpus of boundary "
-        "programs; non-trivial = distinct input that reached the evaluator (all of them)")
+        "programs; heap-shape programs (aliased, nested and cyclic arrays alive in every kind of root while functions return, i.e. "
+        "while collections run); non-trivial = distinct input that reached the evaluator (all of them)")
 
 VOCAB = ["als", "anders", "antwoord", "functie", "zolang", "stel", "ja", "nee", "stop", "volgende", "x", "y", "f", "print", "lengte", "int",
          "0", "1", "42", "1.5", "1152921504606846975", "99999999999999999999", '"s"', '"', "=", "==", "!=", "<", "<=", ">", ">=", "+", "-", "*", "/", "%",
@@ -46,6 +47,19 @@ DIRECTED = [
     "stel a = [" + ", ".join(["1"] * 70000) + "]; lengte(a)", "f(" + ", ".join(["1"] * 300) + ")", "print(" + ", ".join(["1"] * 256) + ")",
     "\n".join("stel v%d = %d;" % (i, i) for i in range(3000)) + "\nv2999",
     "stel x = 0; " + "als x == 0 { x = 1 } " * 8000 + " x",
+]
+
+# heap shapes x collection points: a collection runs at every function return, whatever is alive then
+HEAP_DIRECTED = [
+    "stel a = [1, 2]; a[1] = a; functie f(x) { x + 1 }; print(a); f(1); a",
+    "stel a = [0]; stel b = [a]; a[0] = b; functie f() { }; f(); lengte(b)",
+    "functie f() { stel k = [1]; k[0] = k; k }; f(); f()",
+    "functie f(x) { x }; stel a = [[1.5], \"s\"]; a[0][0] = a; f(a); f(a[0]); a",
+    "stel a = [1, 2, 3]; a[0] = a; a[1] = a; a[2] = a; functie f() { 0.5 + 0.5 }; f(); f(); a",
+    "stel a = []; stel i = 0; zolang i < 3000 { a = [a]; i += 1 }; functie f() { 1 }; f(); lengte(a)",
+    "stel a = [1]; stel b = [a, a, [a, a]]; functie f() { \"x\" + \"y\" }; f(); b",
+    "functie f(n) { als n < 1 { antwoord [] }; stel r = f(n - 1); stel s = [r, r]; s[0] = s; s }; f(6)",
+    "stel s = \"abc\"; functie f() { s[0] }; stel t = [f(), f(), s]; t[2] = t; f(); t",
 ]
 
 K6_PROBE = "(" * 400000 + "1" + ")" * 400000
@@ -87,6 +101,11 @@ def run(res, tier, rng, table_diffs=()):
     for b in bases:
         for _ in range(10 if tier == "quick" else 40):
             inputs.append(("edit", mutate(rng, b)))
+    from . import C03
+    for d in HEAP_DIRECTED:
+        inputs.append(("heap", d))
+    for _ in range(150 if tier == "quick" else 3000):
+        inputs.append(("heap", C03.heap_program(rng.fork())))
     # truncation at every character offset
     trunc = bases[:6] + [rng.pick(bases) for _ in range(4 if tier == "quick" else 60)]
     for b in trunc:
